@@ -1065,4 +1065,53 @@ CASES = [
   {
     if (transit_event->named_args) { transit_event->formatted_msg->clear(); }
 """)]),
+ # ---------------- rules added because of the third batch of seeded changes (C13-C20); the seeded patches themselves are run by
+ # selftest.py straight from seeded/*/patch.diff, these are further instances of the same rules
+ dict(name="c13-recalc-guard-strict", ids=["C13"], rule="C13.R4b", subs=[(SFH, "    if (timestamp >= _next_recalculation_timestamp)", "    if (timestamp > _next_recalculation_timestamp)")]),
+ dict(name="c13-populate-local-with-gmtime", ids=["C13"], rule="C13.R4f", subs=[(SFH, "      localtime_rs(reinterpret_cast<time_t const*>(std::addressof(_cached_timestamp)), std::addressof(time_info));", "      gmtime_rs(reinterpret_cast<time_t const*>(std::addressof(_cached_timestamp)), std::addressof(time_info));")]),
+ dict(name="c13-elapsed-after-overwrite", ids=["C13"], rule="C13.R4e", subs=[(SFH, """    time_t const timestamp_diff = timestamp - _cached_timestamp;
+
+    // cache this timestamp
+    _cached_timestamp = timestamp;
+""", """    time_t const previous = _cached_timestamp;
+    // cache this timestamp
+    _cached_timestamp = timestamp;
+    time_t const timestamp_diff = timestamp - _cached_timestamp;
+    (void)previous;
+""")]),
+ dict(name="c13-backwards-updates-cache", ids=["C13"], rule="C13.R4a", subs=[(SFH, """      _fallback_formatted = _safe_strftime(_timestamp_format.data(), timestamp, _time_zone).data();
+      return _fallback_formatted;""", """      _fallback_formatted = _safe_strftime(_timestamp_format.data(), timestamp, _time_zone).data();
+      _cached_timestamp = timestamp;
+      return _fallback_formatted;""")]),
+ dict(name="c13-recalc-string-not-cleared", ids=["C13"], rule="C13.R4c", subs=[(SFH, "      _pre_formatted_ts.clear();\n      _cached_indexes.clear();", "      _cached_indexes.clear();")]),
+ dict(name="c13-gmt-recalc-midnight-only", ids=["C13"], rule="C13.R4d", subs=[(SFH, "      time_info.tm_hour = 11;", "      time_info.tm_hour = 23;")]),
+ dict(name="c13-seconds-of-day-without-minutes", ids=["C13"], rule="C13.R4f", subs=[(SFH, "static_cast<uint32_t>((time_info.tm_hour * 3600) + (time_info.tm_min * 60) + time_info.tm_sec);", "static_cast<uint32_t>((time_info.tm_hour * 3600) + (time_info.tm_min * 60));")]),
+ dict(name="c14-recover-ignores-extension", ids=["C14"], rule="C14.R5e", subs=[(RSH, """      // we need to recover the index from the existing files
+      for (const auto& entry : fs::directory_iterator(fs::current_path() / filename.parent_path()))
+      {
+        // is_directory() does not exist in std::experimental::filesystem
+        if (entry.path().extension().string() != filename.extension().string())
+        {
+          // we only check for the files of the same extension to remove
+          continue;
+        }
+""", """      // we need to recover the index from the existing files
+      for (const auto& entry : fs::directory_iterator(fs::current_path() / filename.parent_path()))
+      {
+""")]),
+ dict(name="c15-initial-mixed-zone", ids=["C15"], rule="C15.R3a", subs=[(RSH, "(config.timezone() == Timezone::GmtTime) ? detail::timegm(&date) : std::mktime(&date);", "(config.timezone() == Timezone::GmtTime) ? std::mktime(&date) : detail::timegm(&date);")]),
+ dict(name="c15-hourly-minutes-not-zeroed", ids=["C15"], rule="C15.R3b", subs=[(RSH, "      date.tm_hour += 1;\n      date.tm_min = 0;", "      date.tm_hour += 1;")]),
+ dict(name="c15-daily-hour-minute-swapped", ids=["C15"], rule="C15.R3c", subs=[(RSH, "date.tm_hour = static_cast<decltype(date.tm_hour)>(config.daily_rotation_time().first.count());", "date.tm_hour = static_cast<decltype(date.tm_hour)>(config.daily_rotation_time().second.count());")]),
+ dict(name="c15-initial-point-may-equal-start", ids=["C15"], rule="C15.R3d", subs=[(RSH, "uint64_t const rotation_time_seconds = (rotation_time > time_now)", "uint64_t const rotation_time_seconds = (rotation_time >= time_now)")]),
+ dict(name="c16-written-line-is-the-bare-message", ids=["C16"], rule="C16.R3", subs=[(BW, "        std::string_view log_to_write = log_statement;", "        std::string_view log_to_write = log_message;")]),
+ dict(name="c17-find-sink-other-order", ids=["C17"], rule="C17.R6a", subs=[("core/SinkManager.h", """      std::lower_bound(_sinks.begin(), _sinks.end(), target,
+                       [](SinkInfo const& elem, std::string const& b) { return elem.sink_id < b; });""", """      std::lower_bound(_sinks.begin(), _sinks.end(), target,
+                       [](SinkInfo const& elem, std::string const& b) { return elem.sink_id > b; });""")]),
+ dict(name="c19-separator-after-every-placeholder", ids=["C19"], rule="C19.R4b", subs=[(BW, "      if (i < named_args.size() - 1)\n      {\n        format_string += delimiter;", "      if (i < named_args.size())\n      {\n        format_string += delimiter;")]),
+ dict(name="c19-split-skips-one-byte", ids=["C19"], rule="C19.R4c", subs=[(BW, "      start = end + delimiter.length();", "      start = end + 1;")]),
+ dict(name="c19-piece-length-is-end", ids=["C19"], rule="C19.R4d", subs=[(BW, "named_args[idx++].second = formatted_values_str.substr(start, end - start);", "named_args[idx++].second = formatted_values_str.substr(start, end);")]),
+ dict(name="c19-two-placeholders-for-spec", ids=["C19"], rule="C19.R4a", subs=[(BW, """        format_string += fmtquill::format("{{{}}}", orig_arg_names[i].second);
+      }""", """        format_string += fmtquill::format("{{{}}}", orig_arg_names[i].second);
+        format_string += "{}";
+      }""")]),
 ]
